@@ -145,9 +145,15 @@ def bucket_of(exc: BaseException) -> tuple:
 
 
 def load_known_findings() -> list[dict]:
-    if not KNOWN_FINDINGS_FILE.exists():
-        return []
-    return json.loads(KNOWN_FINDINGS_FILE.read_text()).get("findings", [])
+    out = []
+    if KNOWN_FINDINGS_FILE.exists():
+        out.extend(json.loads(KNOWN_FINDINGS_FILE.read_text()).get("findings", []))
+    # development only: per-property proposals, merged into known_findings.json before commit
+    d = VERIF_DIR / "known_findings.d"
+    if d.exists():
+        for p in sorted(d.glob("*.json")):
+            out.extend(json.loads(p.read_text()).get("findings", []))
+    return out
 
 
 def open_buckets(prop: str, claim_name: str) -> set[tuple]:
